@@ -142,7 +142,7 @@ func concurrentBody(nsenders int) nd.Body {
 				i := i
 				vs.GoNamed(fmt.Sprintf("sender%d", i+1), false, func() {
 					errs[i], want[i] = sendOne(env.S, kinds[i], fmt.Sprintf("s%d", i+1))
-					done[i] = true
+					vs.Atomically(func() { done[i] = true })
 				})
 			}
 			k := nsenders - 1
